@@ -397,7 +397,9 @@ impl<'a> Machine<'a> {
                         }
                         V::A(Arr::new(dims, elem))
                     };
-                    self.frames[fx].vars.insert(key, v);
+                    // REDIM inside a subprogram of an array that is SHARED at module level re-dimensions that array
+                    let target = if *redim && fx != 0 && self.shared.contains(&key) && !self.frames[fx].vars.contains_key(&key) { 0 } else { fx };
+                    self.frames[target].vars.insert(key, v);
                 }
                 Ok(())
             }
